@@ -171,7 +171,9 @@ func checkC03(c *Ctx) {
 	c03ErrorsHook(c)
 }
 
-var c03ErrorsHook = func(c *Ctx) { c.Run.Note("R5 (error discipline) and the Decrypt* wiring are provided by the flow engine") }
+var c03ErrorsHook = func(c *Ctx) {
+	c.Run.Note("R5 (error discipline) and the Decrypt* wiring are provided by the flow engine")
+}
 
 func c03Methods(c *Ctx, mt int64, v avariant, n, m int) {
 	r := c.Run
